@@ -332,11 +332,21 @@ def run_case(case):
         if name in ('insert', 'pop', 'pop_noarg', 'rename_child', 'pop_default') and touched.get(path, 0) >= 1:
             nontrivial = True
         touched[path] = touched.get(path, 0) + 1
+        ids_before = [id(x) for x in list.__iter__(node)] if isinstance(node, list) else None
         try:
             apply_node(node, name, copy.deepcopy(args))
             node_raised = None
         except Exception as e:      # noqa
             node_raised = e
+        if ids_before is not None and node_raised is None and raised is None and not unspecified and name in ('delitem', 'remove_child', 'pop', 'pop_noarg'):
+            # like a python list, the node removes the entry AT the index - not an equal entry somewhere else
+            # (equal entries are different nodes: they can carry different flags and metadata)
+            idx = -1 if name == 'pop_noarg' else args[0]
+            expect_ids = list(ids_before)
+            del expect_ids[idx]
+            if [id(x) for x in list.__iter__(node)] != expect_ids:
+                raise Violation(f'C17: {desc}: the entries left in the list are not the previous entries without the one at index {idx} '
+                                f'(an equal entry at another position was removed instead)' + '\nhistory:\n  ' + '\n  '.join(history))
         hist = '\nhistory:\n  ' + '\n  '.join(history)
         if unspecified:
             labels.add('list.set_child-out-of-range(consistency only)')
